@@ -105,8 +105,8 @@ theorem text_format_changes_tree :
       = .ok (.bin .sub (.bin .sub (.var "x") (.var "y")) (.var "z")) := by
   rw [text_dropped_parens.1]
   have hl : lex "x - y - z".toList = .ok (fmtToks (.bin .sub (.var "x") (.bin .sub (.var "y") (.var "z")))) := by decide
-  unfold parseText
-  rw [hl, parse_format_counterexample.2.2]
+  have hp := parse_format_counterexample.2.2
+  simp only [parseText, hl, hp]
 
 /-- a prefix operator keeps the parentheses of its operand: `-(x + y)`, `not (a or b)` -/
 theorem text_unary_keeps_parens :
